@@ -225,6 +225,19 @@ def judge : List String → String
       else if st != "200" && !(st.startsWith "4" || st.startsWith "5") then "viol unexpected-status"
       else "ok"
     | _, _, _ => "bad-op"
+  -- juse <nets of the ORIGINAL certificate> <peer> <env> <status> : a refreshed certificate presented from <peer>
+  | ["juse", ns, p, env, st] =>
+    match pList pBlock "," ns, pPeer p, pEnv env with
+    | some bs, some p, some env =>
+      let inside := insideAny bs p
+      let good := !env.denied && env.automation && !env.revoked
+      if st == "PANIC" then "viol panic"
+      else if st == "200" && !inside then "viol refreshed-certificate-admitted-outside-original-netblocks"
+      else if st == "200" && !good then "viol refreshed-certificate-admitted-despite-denied-or-foreign-identity"
+      else if st != "200" && inside && good then "viol refreshed-certificate-refused-inside-original-netblocks"
+      else if st != "200" && !(st.startsWith "4" || st.startsWith "5") then "viol unexpected-status"
+      else "ok"
+    | _, _, _ => "bad-op"
   | _ => "bad-op"
 
 def handler (mode : String) : Option Handler :=
